@@ -20,7 +20,9 @@ SIGNS = ['positive', 'non-negative', 'zero', 'non-positive', 'negative', 'null']
 TYPES = ['bool', 'int', 'real', 'string', 'date']
 EPS = [Fraction(0), Fraction(1, 2), Fraction(1, 4), Fraction(1, 8)]
 REX_POOL = [r'^[a-z]+$', r'^[A-Za-z]+$', r'^\d+$', r'^.*$', r'^cat\d{2}$', r'^[a-z]{1,3}$', r'^id\-\d+$', r'^$', r'^.$',
-            r'^[a-z]+\d$']
+            r'^[a-z]+\d$',
+            # expressions that are not anchored at the end (the documented meaning is a match from the start of the value)
+            r'^#', r'^a', r'^[a-z]', r'^a|b$', r'^id', r'a', r'^\d']
 
 
 def quiet():
@@ -294,7 +296,7 @@ class C02(core.Prop):
     lean_modules = ['TddaVerif.Props.C02']
     theorems = ['TddaVerif.Props.C02.' + t for t in ['verify_eq_spec', 'verify_flag_irrelevant', 'missing_field_fails',
         'null_value_passes', 'fuzzDown_eq', 'fuzzUp_eq', 'totals_exact', 'verdicts_eq', 'null_constraint_inert']]
-    quick_n = 500
+    quick_n = 800
     thorough_n = 30000
     rule = ('cases: frames of 1..3 columns x 0..10 rows over every recognised family, with a boundary-directed '
             'constraint set per field (bounds on, one step inside and one step outside the column statistic; every '
